@@ -300,9 +300,11 @@ class ResourceMap:
         nested resource maps are not ideal.
         """
         # Set valid identifiers as slots
+        # Private names (__name) would be mangled in the class body
         slots_resources = tuple(filter(
-            lambda x: x.isidentifier(), chain(self.handles.keys(),
-                                              self.maps.keys())))
+            lambda x: x.isidentifier() and (not x.startswith('__')
+                                            or x.endswith('__')),
+            chain(self.handles.keys(), self.maps.keys())))
 
         # Don't add a dict if all the resources can be encoded into
         # slots
